@@ -519,7 +519,7 @@ struct gobj {
 };
 struct gslot {
         uint8_t *arena[ARENAS_PER_SLOT]; /* base incl. leading guard page */
-        struct gobj obj[ARENAS_PER_SLOT + 48];
+        struct gobj obj[ARENAS_PER_SLOT + 112];
         int nobj, narena_used;
         uint8_t *plain;
         size_t plain_sz, plain_used;
